@@ -50,7 +50,9 @@ struct Tracked {
 	Tracked& operator=(Tracked const&) noexcept(false);
 	Tracked& operator=(Tracked&&) noexcept(false);
 #endif
-	~Tracked();
+#ifndef TRACKED_TRIVIAL_DTOR
+	~Tracked();                                        // (with TRACKED_TRIVIAL_DTOR: trivially destructible, everything else as above - like std::complex with a user default constructor)
+#endif
 	bool operator==(Tracked const&) const;
 	bool operator<(Tracked const&) const;
 };
@@ -142,6 +144,7 @@ def ops(D):
     add("view_elements_assign", "Sub& v, CSub const& w", "v.elements() = w.elements();", {0: "view", 1: "view"}, "view")
     add("view_elements_assign_same", "Sub& v, Sub& w", "v.elements() = w.elements();", {0: "view", 1: "view"}, "view")
     add("named_view_assign_temporary_view", "Sub& v, Arr& b", "v = b();", {0: "view", 1: "live"}, "view")
+    add("named_view_assign_moved_view", "Sub& v, Sub& w", "v = w.element_moved();", {0: "view", 1: "view"}, "view")
     # what the standard algorithms do with dereferenced (proxy) iterators (C03)
     add("iter_move_assign", "It it, It jt", "*it = std::move(*jt);", {}, "view", "C03")
     add("iter_assign_value", "It it, multi::array<Tracked, DD>& val", "*it = std::move(val);", {}, "view", "C03")
